@@ -60,12 +60,12 @@ def build_image(rnd, comp, bs):
     P = [sizeleg.payload(rnd, bs, k) for k in range(5)]
     blob = sizeleg.Blob()
     blob.add(b"\x55" * rnd.choice([3, 7, 64]))
-    # stored streams: a compressed full block, a raw full block, a short raw block, another compressed full block
+    # stored streams: a compressed full block, a raw full block, a short raw block, a compressed SHORT block (its flag-flipped
+    # twin is a raw block of the stored length; what the codec leaves beyond the short output is taken out of the comparison
+    # on both sides: h_reader.c tame_do_block / stubs.c)
     short = sizeleg.payload(rnd, rnd.choice([100, bs // 2, bs - 1]), 7)
-    # (no compressed SHORT block here: what a codec leaves beyond a short output in the block buffer -- zstd's wild copies --
-    # differs between the library's decoder call and the model driver's stub, a tie matter of props/C10/sizeleg.py, not of
-    # this leg; every compressed stream of this leg expands to a full block)
-    stored = [("c", C(P[0])), ("raw", P[1]), ("raw", short), ("c", C(sizeleg.payload(rnd, bs, 5)))]
+    cshort = sizeleg.payload(rnd, rnd.choice([50, 100, bs // 2, bs - 1]), 5)
+    stored = [("c", C(P[0])), ("raw", P[1]), ("raw", short), ("c", C(cshort))]
     blob.add(C(P[2]))                # something readable in front of the first aliased location
     base_words, rels = [], []
     for kind, st in stored:
